@@ -153,6 +153,21 @@ Proof. unfold elem_cmp, wpure. destruct (cmp_p' w a b); try discriminate. intros
 
 End Main.
 
+(* ------------------------------------------------------------------ the list-level statement in one piece *)
+Theorem sort_unique_bundle : forall srt1 srt2 (A : Type) (c : A -> A -> comparison) (l l' : list A),
+  StableSort srt1 -> StableSort srt2 -> TotalPreorderOn c (fun x => In x l) -> Permutation l l' ->
+  srt1 A c l = srt2 A c l /\
+  srt1 A c (srt1 A c l) = srt1 A c l /\
+  Forall2 (fun x y => c x y = Eq) (srt1 A c l) (srt2 A c l') /\
+  ((forall x y, In x l -> In y l -> c x y = Eq -> x = y) -> srt1 A c l = srt2 A c l').
+Proof.
+  intros srt1 srt2 A c l l' S1 S2 H P.
+  exact (conj (stable_sorts_agree srt1 srt2 c l S1 S2 H)
+        (conj (ss_idempotent srt1 S1 c l H)
+        (conj (sort_order_independent srt1 srt2 c l l' S1 S2 H P)
+              (sort_order_independent_strict srt1 srt2 c l l' S1 S2 H P)))).
+Qed.
+
 (* ------------------------------------------------------------------ non-vacuity: a ready heap *)
 Import SortTiny.
 Definition tiny_rank (i : id) : nat := match i with 0 => 2%nat | 1 | 3 | 5 => 1%nat | _ => 0%nat end.
@@ -175,5 +190,7 @@ Proof.
        | vm_compute; discriminate
        | intros d id; cbn in id; repeat (destruct id as [id | id]; [try discriminate id; injection id as <-; exact I |]); destruct id
        | intros a ia; destruct ia ]).
-  - intros i. unfold tiny_rank. cbn. destruct i as [| [[[|] | [|] |] | [[|] | [|] |] |]]; cbn; lia.
+  - intros i. assert (H : (tiny_rank i <= 2)%nat); [| cbn; lia].
+    unfold tiny_rank. destruct i as [| p]; [lia |].
+    destruct p as [p | p |]; try lia; destruct p as [p | p |]; try lia; destruct p; lia.
 Qed.
